@@ -22,6 +22,8 @@ HOST_BYTES = 3 << 30
 def value_class(v):
     """class of a value text: the signature of a finding is <object kind>.<keyword>:<value class>"""
     try:
+        if v.startswith("-") and v[1:2].isdigit():
+            return "negative"
         if re.fullmatch(r"[-+]?\d+", v):
             z = int(v)
             if z == 0:
@@ -45,6 +47,9 @@ def value_class(v):
         return "real"
     except ValueError:
         return "non-numeric"
+
+
+KIND_OF = {"colvaroff1": "colvar", "colvarrof0": "colvar", "opesad": "opes", "metanogrid": "meta"}
 
 
 def find_block(root, path):
@@ -130,8 +135,8 @@ def check(run):
     W = V.scratch("C10")
     t_start = time.time()
 
-    def report_death(kind, kw, value, variant, res, scenario, extra=""):
-        sig = "death:%s.%s:%s" % (kind, kw, value_class(value))
+    def report_death(kind, kw, value, variant, res, scenario, extra="", vclass=None):
+        sig = "death:%s.%s:%s" % (kind, kw, vclass or value_class(value))
         run.violation(sig, "%s %s = %s (%s build): the host process %s [%s] %s%s" % (
             kind, kw, value, variant, res["cls"], res["detail"][:160], L.death_site(res["out"]), extra),
             {"kind": "scenario", "variant": variant, "scenario": scenario, "class": res["cls"], "detail": res["detail"][:400]})
@@ -166,7 +171,7 @@ def check(run):
     values = list(L.BOUNDARY_VALUES) + ([] if quick else list(L.EXTRA_VALUES))
     # witnesses of the theorems (always run)
     extra_cases = [("module.colvarsTrajFrequency", "2305843009213693952"), ("colvaroff1.corrFuncLength", "-1"),
-                   ("colvar.corrFuncLength", "2147483647"), ("colvar.corrFuncStride", "2147483647"),
+                   ("colvar.corrFuncLength", "2147483647"), ("colvarrof0.corrFuncStride", "2147483647"),
                    ("colvar.corrFuncOffset", "-1"), ("meta.gridsUpdateFrequency", "0"), ("meta.newHillFrequency", "0"),
                    ("histrestr.upperBoundary", "2147483647"), ("histrestr.width", "1e-300"), ("opes.colvarsRestartFrequency", "0")]
     cases = []
@@ -202,13 +207,16 @@ def check(run):
     n_dead = 0
     for (eid, v, var), rr in sorted(res.items()):
         e = T.BY_ID[eid]
-        kind, kw = eid.split(".")[0], e[3]
+        kind, kw = KIND_OF.get(eid.split(".")[0], eid.split(".")[0]), e[3]
         mo = mres[(eid, v)]
         mverdict = mo.split()[0]
         unsafe = ("initsafe=0" in mo) or (mverdict == "accept" and ("stepsafe=0" in mo or "corrsafe=0" in mo))
         ambiguous = eid in T.MEMORY_SENSITIVE and value_class(v) in T.MEMORY_SENSITIVE[eid]
         cls = rr["cls"]
         impl = cls
+        if rr.get("skipped"):
+            run.dist("table:inconclusive(harness limit)")
+            continue
         if cls == "ok":
             lc = last_config(rr)
             impl = "accept" if (lc and lc[0] == "ok") else "reject"
@@ -256,8 +264,11 @@ def check(run):
         mo = gout[k] if k < len(gout) else "<none>"
         run.count(("grid", g["label"], var), True)
         run.dist("grid:" + var)
+        if rr.get("skipped"):
+            run.dist("grid:inconclusive(harness limit)")
+            continue
         if rr["cls"] != "ok":
-            report_death("grid", "sizes", g["label"], var, rr, g["scenario"], " dims=%s (model: %s)" % (g["dims"], mo))
+            report_death("grid", "sizes", g["label"], var, rr, g["scenario"], " dims=%s (model: %s)" % (g["dims"], mo), vclass=g["label"])
             if not g["ambiguous"]:
                 run.mismatch("grid:sizes", str(g["dims"]), rr["cls"], mo)
             continue
@@ -284,7 +295,7 @@ def check(run):
         run.count(("rollback", c["shape"]), c["nfail"] > 0)
         run.dist("rollback:%s" % ("with-rejected-object" if c["nfail"] else "all-valid"))
         if rr["cls"] != "ok":
-            report_death("rollback", "objects", c["shape"], "plain", rr, c["scenario"])
+            report_death("rollback", "objects", c["shape"], "plain", rr, c["scenario"], vclass="any")
             continue
         ol = objs_lines(rr["out"])
         lc = last_config(rr)
@@ -405,7 +416,7 @@ def gen_rollback_case(r, k):
         elif t == "histogram":
             bias_txt += "histogram {\n  name %s\n  colvars g0\n%s}\n" % (n, bad)
         else:
-            bias_txt += "metadynamics {\n  name %s\n  colvars g0\n  hillWeight 0.0\n  hillWidth 2\n  newHillFrequency 2\n%s}\n" % (n, bad)
+            bias_txt += "metadynamics {\n  name %s\n  colvars g0\n  hillWeight 0.01\n  hillWidth 2\n  newHillFrequency 2\n%s}\n" % (n, bad)
         if f:
             failing.append(n)
     groups = []
@@ -544,6 +555,9 @@ def search(run, r, plain, asan, W, quick, report_death, check_survivors_search, 
         done += len(res)
         for k, rr in res.items():
             label, kw, v, variant, sc, name = meta[k]
+            if rr.get("skipped"):
+                run.dist("search:inconclusive(harness limit)")
+                continue
             lc = last_config(rr)
             impl = rr["cls"] if rr["cls"] != "ok" else ("accept" if lc and lc[0] == "ok" else "reject")
             run.count(("search", label, kw.lower(), value_class(v), variant), impl != "accept")
